@@ -6,36 +6,50 @@ usage (library): c2lean.translate_unit(repo, builddir, unit_name, c_file, [funct
 The translation is syntax directed (one Lean construct per C construct, no pattern recognition, no simplification), from
 clang's typed AST (`clang-14 -Xclang -ast-dump=json`).  The result is a SHALLOW embedding in the style of Aeneas:
 
-  * every C function `f` gets a state structure `f.St` with one field per parameter / local scalar (`Int`), one field per
-    array it indexes (`List Int`; `p[i]`, `*p`, `ddims[i].field` -> field `ddims_field`, `info->field` -> `info_field`,
-    `info->arr[i]` -> `info_arr`), plus
-       ub  : Bool   an access outside its array, a division by zero, a negative shift or bitwise operand happened
-       oof : Bool   a loop ran out of fuel (the C loop would still be running)
-       ret : Int    value of the `return` statement,  done : Bool  a `return` was executed
+  * every C function `f` gets a state structure `f.St` with
+      - one field per integer parameter / local (`Int`);
+      - one field (`List Int`) per memory REGION the function touches: an integer-pointer parameter `p` is the region `p`
+        (`p[i]`, `*p`), `ddims[i].field` is the region `ddims_field`, `info->arr` is `info_arr`, `info->row[k]` (a pointer
+        taken from an array of pointers) is the region `info_row` (the caller passes that row), a local array is its own
+        region, pointer parameters listed in opts['flat'] share the single region `mem` and carry their ADDRESS in an
+        `Int` field (so that `source == dest`, overlapping and in-place use are faithful);
+      - one `Int` field per pointer local: its INDEX into its region.  The region of a pointer local is determined
+        statically (every assignment to it must stay in one region, otherwise the translator fails);
+      - `info->field` (integer member of a struct parameter) is the field `info_field`; `<region>_null : Bool` is the
+        answer to a comparison of that parameter / member with NULL;
+      - ub  : Bool   an access outside its region, a division by zero, a bad shift, overlapping memcpy happened
+        oof : Bool   a loop ran out of fuel (the C loop would still be running)
+        ret : Int    value of the `return` statement (for a pointer result: the index in its region, `retnull` for NULL),
+        done : Bool  a `return` was executed;  brk / cnt : Bool  a `break` / `continue` is pending
   * statements are state transformers composed with `let s := …`; `if` is `if … then … else …`;
     every loop is a structurally recursive function on a `fuel : Nat` argument (the entry point takes `fuel`);
-  * C integers are Lean `Int`s WITHOUT wrap-around (assumption "no int32 overflow", stated in the trusted base), `/` and `%`
-    are C's truncating operators (`Int.tdiv`, `Int.tmod`); a cast to an 8/16-bit type reduces modulo its width;
-  * arrays passed through different parameters are assumed not to overlap (trusted base).
+  * C integers are Lean `Int`s.  Arithmetic in an UNSIGNED type and conversions to an unsigned type reduce modulo 2^width
+    (defined behaviour in C, modelled exactly); conversions to signed types narrower than 32 bits wrap; signed 32/64-bit
+    arithmetic is NOT wrapped (signed overflow is undefined behaviour; assumption "no signed overflow", trusted base);
+    `/` and `%` are C's truncating operators (`Int.tdiv`, `Int.tmod`);
+  * side effects inside expressions are supported in the forms `x++ x-- ++x --x` (also on pointers, also under `*`),
+    with C's sequencing: the value of the expression is computed in the old state, the updates are applied after the
+    statement (or after the evaluation of a loop / if condition);
+  * regions passed through different parameters are assumed not to overlap (trusted base), except the `flat` ones.
 
-Everything outside the supported subset makes the translator FAIL loudly (it never guesses): goto, switch, pointer arithmetic
-on non-byte pointers, calls (unless listed in `opts['calls']` as translated functions of the same unit), address-of, floating point,
-side effects inside expressions other than the statement-level forms listed below.
-Statement forms: declarations, `x = e`, `a[i] = e`, `*p = e`, `x op= e`, `a[i] op= e`, `x++/x--/++x/--x`, `if/else`, `for`, `while`,
-`do-while`, blocks, `return e`, `break`, `continue`; empty statements.
+Everything outside the supported subset makes the translator FAIL loudly (it never guesses): goto, switch, calls other
+than memcpy and the names in opts['ignore_calls'] (error reporting that does not touch the modelled state),
+address-of other than `&a[i]`, floating point, struct assignment, pointer-to-pointer arithmetic.
 """
 import json, os, re, subprocess, sys
 
 KEYWORDS = {"done", "end", "from", "at", "in", "fun", "open", "then", "else", "if", "do", "let", "have", "show", "match", "with", "where",
             "ub", "oof", "ret", "s", "fuel", "by", "local", "section", "namespace", "def", "theorem", "instance", "class", "structure",
             "mut", "for", "return", "break", "continue", "prefix", "infix", "notation", "macro", "syntax", "import", "export", "universe",
-            "variable", "set_option", "attribute", "deriving", "extends", "Type", "Prop", "Sort", "true", "false", "brk", "cnt"}
+            "variable", "set_option", "attribute", "deriving", "extends", "Type", "Prop", "Sort", "true", "false", "brk", "cnt",
+            "retnull", "private", "protected", "partial", "unsafe", "noncomputable", "abbrev", "example", "inductive", "mutual", "calc", "using",
+            "c", "v", "ix"}
 
 SIGNED = {"char": 8, "signed char": 8, "short": 16, "int": 32, "long": 64, "long long": 64, "int8": 8, "int16": 16, "int32": 32, "intn": 32,
-          "int8_t": 8, "int16_t": 16, "int32_t": 32, "int64_t": 64, "ssize_t": 64, "intf": 32}
+          "int8_t": 8, "int16_t": 16, "int32_t": 32, "int64_t": 64, "ssize_t": 64, "intf": 32, "ptrdiff_t": 64, "__ptrdiff_t": 64}
 UNSIGNED = {"unsigned char": 8, "unsigned short": 16, "unsigned int": 32, "unsigned": 32, "unsigned long": 64, "unsigned long long": 64,
             "uint8": 8, "uint16": 16, "uint32": 32, "uintn": 32, "uint8_t": 8, "uint16_t": 16, "uint32_t": 32, "uint64_t": 64, "size_t": 64,
-            "uchar8": 8, "char8": 8}
+            "uchar8": 8, "char8": 8, "_Bool": 8}
 
 
 class Unsupported(Exception):
@@ -75,7 +89,7 @@ def qt(n):
 
 
 def base_type(t):
-    t = re.sub(r"\b(const|volatile|restrict|register)\b", "", t).strip()
+    t = re.sub(r"\b(const|volatile|restrict|register|struct)\b", "", t).strip()
     return re.sub(r"\s+", " ", t)
 
 
@@ -86,188 +100,353 @@ def int_width(t):
         return True, SIGNED[t]
     if t in UNSIGNED:
         return False, UNSIGNED[t]
-    if t.startswith("enum "):
-        return True, 32
+    if t.startswith("enum"):
+        return False, 32
     return None
+
+
+def ptr_elem(t):
+    """element type string if t is a pointer (or array) type, else None"""
+    t = base_type(t)
+    m = re.match(r"^(.*)\[\d*\]$", t)
+    if m:
+        return base_type(m.group(1))
+    if t.endswith("*"):
+        return base_type(t[:-1])
+    return None
+
+
+class Eff:
+    """a pending side effect of an expression: lvalue := term (term refers to the state BEFORE the statement)"""
+    def __init__(self, lv, term, var):
+        self.lv, self.term, self.var = lv, term, var
 
 
 class Fn:
     def __init__(self, ast, unit, opts):
         self.ast, self.unit, self.opts = ast, unit, opts
         self.name = ast["name"]
-        self.scalars = []        # state fields : Int   (in order of appearance)
-        self.arrays = []         # state fields : List Int
-        self.params = []         # entry point parameters: (lean field, kind) in C order, struct parameters expanded on first use
-        self.struct_params = {}  # C name -> 'array' | 'single'
-        self.ptr_params = set()
-        self.loops = []          # generated loop definitions (text)
+        self.scalars = []        # Int fields
+        self.bools = []          # Bool fields that are inputs (`_null`)
+        self.regions = []        # List Int fields
+        self.local_regions = {}  # local arrays: region -> size
+        self.entry = []          # entry point parameters (lean name, type) in order
+        self.ptr = {}            # C pointer variable -> region (params: own region or 'mem'; locals: resolved)
+        self.ptr_is_param_region = set()   # pointer params that ARE a region (index 0, not assignable)
+        self.flat = set(opts.get("flat", []))
+        self.structs = set()     # struct-pointer parameters
+        self.loops = []
         self.nloops = 0
         self.has_ret = False
         self.has_brk = False
-        self.decl_of = {}        # clang id -> lean scalar name
-        self.field_order = {}    # struct param -> [fields in order of first use]
-        self.calls = opts.get("calls", {})
+        self.ret_region = None
+        self.ignore = set(opts.get("ignore_calls", []))
+        self.globals = opts.get("globals", {})
+        self.notes = []
+        self.statics = []
+        self.setters = []
+        self.owner = None        # struct parameter whose member is being registered (entry parameters are grouped per C parameter)
+        self.plist = []
 
-    # ---------------------------------------------------------------- state fields
-    def scalar(self, n):
+    # ---------------------------------------------------------------- fields
+    def add_entry(self, n, ty):
+        self.entry.append((n, ty, self.owner))
+
+    def scalar(self, n, entry=False):
         n = lname(n)
         if n not in self.scalars:
             self.scalars.append(n)
+            if entry:
+                self.add_entry(n, "Int")
         return n
 
-    def array(self, n):
+    def boolf(self, n):
         n = lname(n)
-        if n not in self.arrays:
-            self.arrays.append(n)
+        if n not in self.bools:
+            self.bools.append(n)
+            self.add_entry(n, "Bool")
         return n
 
-    # ---------------------------------------------------------------- expressions
-    # an expression translates to (lean Int term, [checks]) ; a check is a Lean Prop (decidable) that must hold, else ub
-    def strip(self, n):
-        while n.get("kind") in ("ParenExpr", "ImplicitCastExpr", "ConstantExpr") and not (
-                n.get("kind") == "ImplicitCastExpr" and n.get("castKind") == "IntegralCast" and self.narrowing(n)):
+    def region(self, n, entry=True):
+        n = lname(n)
+        if n in self.local_regions:
+            return n
+        if n not in self.regions:
+            self.regions.append(n)
+            if entry:
+                self.add_entry(n, "List Int")
+        return n
+
+    def owned(self, p, f, *a, **kw):
+        old, self.owner = self.owner, p
+        try:
+            return f(*a, **kw)
+        finally:
+            self.owner = old
+
+    # ---------------------------------------------------------------- types and conversions
+    def conv(self, term, frm, to):
+        """integer conversion frm -> to ((signed, bits) pairs)"""
+        if frm is None or to is None:
+            fail("%s: conversion with a non-integer type" % self.name)
+        fs, fb = frm
+        ts, tb = to
+        if not ts:
+            if not fs and fb <= tb:
+                return term
+            return "((%s) %% %d)" % (term, 2 ** tb)
+        if fs and fb <= tb:
+            return term
+        if (not fs) and fb < tb:
+            return term
+        if tb < 32:
+            m = 2 ** tb
+            return "(((%s) + %d) %% %d - %d)" % (term, m // 2, m, m // 2)
+        return term      # assumption: value representable (no signed overflow)
+
+    # ---------------------------------------------------------------- pointer expressions -> (region, index term, checks, effects)
+    def skip(self, n):
+        """strip parentheses and value-preserving casts"""
+        while True:
+            k = n.get("kind")
+            if k in ("ParenExpr", "ConstantExpr"):
+                n = n["inner"][0]
+            elif k == "ImplicitCastExpr" and n.get("castKind") in ("LValueToRValue", "NoOp", "ArrayToPointerDecay", "BitCast", "FunctionToPointerDecay"):
+                n = n["inner"][0]
+            elif k == "CStyleCastExpr" and ptr_elem(qt(n)) is not None and n.get("castKind") in ("BitCast", "NoOp", "LValueToRValue"):
+                n = n["inner"][0]
+            else:
+                return n
+
+    def is_null(self, n):
+        while n.get("kind") in ("ParenExpr", "ImplicitCastExpr", "CStyleCastExpr"):
+            if n.get("castKind") == "NullToPointer":
+                return True
             n = n["inner"][0]
-        return n
+        return False
 
-    def narrowing(self, n):
-        w = int_width(qt(n))
-        return w is not None and w[1] < 32
-
-    def lvalue(self, n):
-        """-> ('scalar', field) | ('elem', array field, index term, checks)"""
-        n = self.strip(n)
+    def pexpr(self, n):
+        n = self.skip(n)
         k = n.get("kind")
+        if k == "DeclRefExpr":
+            d = n["referencedDecl"]
+            nm = d["name"]
+            if nm in self.globals:
+                return ("@" + nm, "0", [], [])
+            if nm not in self.ptr:
+                fail("%s: pointer %s is not a known pointer variable" % (self.name, nm))
+            reg = self.ptr[nm]
+            if reg is None:
+                fail("%s: region of pointer %s could not be determined" % (self.name, nm))
+            own = reg if reg in [lname(x) for x in self.plist] else None
+            if nm in self.ptr_is_param_region or lname(nm) in self.local_regions:
+                return (self.owned(own, self.region, reg), "0", [], [])
+            return (self.owned(own, self.region, reg), "s.%s" % lname(nm), [], [])
+        if k == "MemberExpr":
+            return (self.member_region(n), "0", [], [])
+        if k == "ArraySubscriptExpr" and ptr_elem(qt(n)) is not None:
+            # element of an array of pointers: info->row[k]  -> the region info_row (the caller passes that row)
+            b = self.skip(n["inner"][0])
+            if b.get("kind") == "MemberExpr":
+                reg = self.member_region(b)
+                it, ic, ie = self.rvalue(n["inner"][1])
+                note = "region `%s` is the row the C code selects with `[%s]`" % (reg, it)
+                if note not in self.notes:
+                    self.notes.append(note)
+                return (reg, "0", ic, ie)
+            fail("%s: element of an array of pointers that is not a struct member" % self.name)
+        if k == "BinaryOperator" and n["opcode"] in ("+", "-"):
+            a, b = n["inner"]
+            if ptr_elem(qt(a)) is not None and int_width(qt(b)) is not None:
+                r, i, c, e = self.pexpr(a)
+                t, c2, e2 = self.rvalue(b)
+                return (r, "(%s %s %s)" % (i, n["opcode"], t), c + c2, e + e2)
+            if n["opcode"] == "+" and ptr_elem(qt(b)) is not None and int_width(qt(a)) is not None:
+                r, i, c, e = self.pexpr(b)
+                t, c2, e2 = self.rvalue(a)
+                return (r, "(%s + %s)" % (i, t), c + c2, e + e2)
+            fail("%s: pointer arithmetic %s" % (self.name, n["opcode"]))
+        if k == "UnaryOperator" and n["opcode"] == "&":
+            lv = self.lvalue(n["inner"][0])
+            if lv[0] != "elem":
+                fail("%s: address of a scalar" % self.name)
+            # &a[i] itself is not an access (one-past-the-end is legal); the access through it is checked
+            return (lv[1], lv[2], lv[3][:-1], lv[4])
+        if k == "UnaryOperator" and n["opcode"] in ("++", "--"):
+            sub = self.skip(n["inner"][0])
+            if sub.get("kind") != "DeclRefExpr" or sub["referencedDecl"]["name"] not in self.ptr or sub["referencedDecl"]["name"] in self.ptr_is_param_region:
+                fail("%s: ++/-- on a pointer expression" % self.name)
+            nm = sub["referencedDecl"]["name"]
+            r, i, c, e = self.pexpr(sub)
+            new = "(%s %s 1)" % (i, "+" if n["opcode"] == "++" else "-")
+            eff = Eff(("scalar", lname(nm)), new, lname(nm))
+            if n.get("isPostfix"):
+                return (r, i, c, e + [eff])
+            return (r, new, c, e + [eff])
+        fail("%s: unsupported pointer expression %s" % (self.name, k))
+
+    def member_chain(self, n):
+        """`p->a->b` / `p->a.b` -> ('p', ['a','b'])"""
+        path = []
+        while n.get("kind") == "MemberExpr":
+            path.append(n["name"])
+            n = self.skip(n["inner"][0])
+        if n.get("kind") == "DeclRefExpr" and n["referencedDecl"]["name"] in self.structs:
+            return n["referencedDecl"]["name"], list(reversed(path))
+        return None, None
+
+    def member_region(self, m):
+        p, path = self.member_chain(m)
+        if p is None:
+            fail("%s: member %s of something that is not a struct parameter" % (self.name, m.get("name")))
+        return self.owned(p, self.region, "%s_%s" % (p, "_".join(path)))
+
+    # ---------------------------------------------------------------- lvalues
+    def lvalue(self, n):
+        """-> ('scalar', field, type) | ('elem', region, index term, checks, effects, type)"""
+        n = self.skip(n)
+        k = n.get("kind")
+        ty = int_width(qt(n))
         if k == "DeclRefExpr":
             d = n["referencedDecl"]
             nm = d["name"]
             if d.get("kind") not in ("VarDecl", "ParmVarDecl"):
                 fail("%s: reference to %s %s" % (self.name, d.get("kind"), nm))
-            if nm in self.ptr_params or nm in self.struct_params:
-                fail("%s: pointer %s used as a value" % (self.name, nm))
-            if nm not in [p for p in self.scalars]:
-                # a global or enum constant would be handled in rvalue(); as an lvalue it must be a local/param
-                if lname(nm) not in self.scalars:
-                    fail("%s: assignment to unknown variable %s" % (self.name, nm))
-            return ("scalar", lname(nm))
+            if nm in self.ptr:
+                if nm in self.ptr_is_param_region or lname(nm) in self.local_regions:
+                    fail("%s: assignment to array/pointer parameter %s" % (self.name, nm))
+                return ("scalar", lname(nm), "ptr")
+            if lname(nm) not in self.scalars:
+                fail("%s: unknown variable %s" % (self.name, nm))
+            return ("scalar", lname(nm), ty)
         if k == "UnaryOperator" and n.get("opcode") == "*":
-            b = self.strip(n["inner"][0])
-            if b.get("kind") == "DeclRefExpr" and b["referencedDecl"]["name"] in self.ptr_params:
-                a = self.array(b["referencedDecl"]["name"])
-                return ("elem", a, "0", ["0 < s.%s.length" % a])
-            fail("%s: dereference of a computed pointer" % self.name)
+            r, i, c, e = self.pexpr(n["inner"][0])
+            return ("elem", r, i, c + [self.inb(r, i)], e, ty)
         if k == "ArraySubscriptExpr":
-            b, i = self.strip(n["inner"][0]), n["inner"][1]
-            it, ic = self.rvalue(i)
-            if b.get("kind") == "DeclRefExpr":
-                nm = b["referencedDecl"]["name"]
-                if nm in self.ptr_params:
-                    a = self.array(nm)
-                    return ("elem", a, it, ic + ["0 ≤ %s ∧ %s < s.%s.length" % (it, it, a)])
-                fail("%s: subscript of %s, which is not a pointer parameter" % (self.name, nm))
-            if b.get("kind") == "MemberExpr":
-                a = self.member_array(b)
-                return ("elem", a, it, ic + ["0 ≤ %s ∧ %s < s.%s.length" % (it, it, a)])
-            fail("%s: subscript of %s" % (self.name, b.get("kind")))
+            b, i = n["inner"][0], n["inner"][1]
+            r, bi, c, e = self.pexpr(b)
+            it, ic, ie = self.rvalue(i)
+            idx = it if bi == "0" else "(%s + %s)" % (bi, it)
+            return ("elem", r, idx, c + ic + [self.inb(r, idx)], e + ie, ty)
         if k == "MemberExpr":
-            b = self.strip(n["inner"][0])
+            b = self.skip(n["inner"][0])
             fld = n["name"]
             if b.get("kind") == "ArraySubscriptExpr":
-                bb, i = self.strip(b["inner"][0]), b["inner"][1]
-                if bb.get("kind") == "DeclRefExpr" and self.struct_params.get(bb["referencedDecl"]["name"]) is not None:
+                bb = self.skip(b["inner"][0])
+                if bb.get("kind") == "DeclRefExpr" and bb["referencedDecl"]["name"] in self.structs:
                     pn = bb["referencedDecl"]["name"]
-                    a = self.struct_field(pn, fld, True)
-                    it, ic = self.rvalue(i)
-                    return ("elem", a, it, ic + ["0 ≤ %s ∧ %s < s.%s.length" % (it, it, a)])
-            if b.get("kind") == "DeclRefExpr" and n.get("isArrow") and self.struct_params.get(b["referencedDecl"]["name"]) is not None:
-                pn = b["referencedDecl"]["name"]
-                if int_width(qt(n)) is None:
-                    fail("%s: member %s->%s is not an integer" % (self.name, pn, fld))
-                f = self.struct_field(pn, fld, False)
-                return ("scalar", f)
-            fail("%s: member access %s on %s" % (self.name, fld, b.get("kind")))
+                    if ty is None:
+                        fail("%s: member %s[].%s is not an integer" % (self.name, pn, fld))
+                    reg = self.owned(pn, self.region, "%s_%s" % (pn, fld))
+                    it, ic, ie = self.rvalue(b["inner"][1])
+                    return ("elem", reg, it, ic + [self.inb(reg, it)], ie, ty)
+            p, path = self.member_chain(n)
+            if p is not None:
+                if ty is None:
+                    fail("%s: member %s->%s is not an integer" % (self.name, p, ".".join(path)))
+                return ("scalar", self.owned(p, self.scalar, "%s_%s" % (p, "_".join(path)), entry=True), ty)
+            fail("%s: member access %s" % (self.name, fld))
         fail("%s: unsupported lvalue %s" % (self.name, k))
 
-    def member_array(self, m):
-        """`info->arr` used as an array"""
-        b = self.strip(m["inner"][0])
-        if b.get("kind") == "DeclRefExpr" and m.get("isArrow") and self.struct_params.get(b["referencedDecl"]["name"]) is not None:
-            return self.struct_field(b["referencedDecl"]["name"], m["name"], True)
-        fail("%s: array member %s of %s" % (self.name, m.get("name"), b.get("kind")))
+    def inb(self, r, i):
+        if i == "0" and not r.startswith("@"):
+            return "0 < s.%s.length" % r
+        if r.startswith("@"):
+            return "0 ≤ %s ∧ %s < (%s).length" % (i, i, self.globals[r[1:]])
+        return "0 ≤ %s ∧ %s < s.%s.length" % (i, i, r)
 
-    def struct_field(self, pn, fld, is_array):
-        f = lname("%s_%s" % (pn, fld))
-        lst = self.field_order.setdefault(pn, [])
-        if (f, is_array) not in lst:
-            if (f, not is_array) in lst:
-                fail("%s: %s->%s used both as scalar and as array" % (self.name, pn, fld))
-            lst.append((f, is_array))
-        return self.array(f) if is_array else self.scalar(f)
+    def read(self, r, i):
+        if r.startswith("@"):
+            return "(Int.ofNat ((%s).getD (Int.toNat (%s)) 0))" % (self.globals[r[1:]], i)
+        return "(s.%s.getD (Int.toNat (%s)) 0)" % (r, i)
 
+    # ---------------------------------------------------------------- integer expressions -> (term, checks, effects)
     def rvalue(self, n):
-        n0 = n
-        n = self.strip(n)
         k = n.get("kind")
-        if k == "IntegerLiteral":
-            return str(int(n["value"])), []
-        if k == "CharacterLiteral":
-            return str(int(n["value"])), []
+        if k in ("ParenExpr", "ConstantExpr"):
+            return self.rvalue(n["inner"][0])
+        if k == "IntegerLiteral" or k == "CharacterLiteral":
+            return str(int(n["value"])), [], []
         if k in ("ImplicitCastExpr", "CStyleCastExpr"):
-            w = int_width(qt(n))
-            if w is None:
-                fail("%s: cast to non-integer type %s" % (self.name, qt(n)))
-            t, c = self.rvalue(n["inner"][0])
-            return self.wrap(t, w), c
+            ck = n.get("castKind")
+            if ck in ("LValueToRValue", "NoOp", "ToVoid"):
+                return self.rvalue(n["inner"][0])
+            if ck == "IntegralCast":
+                t, c, e = self.rvalue(n["inner"][0])
+                return self.conv(t, int_width(qt(n["inner"][0])), int_width(qt(n))), c, e
+            if ck == "IntegralToBoolean":
+                t, c, e = self.rvalue(n["inner"][0])
+                return "(if %s ≠ 0 then 1 else 0)" % t, c, e
+            fail("%s: cast kind %s" % (self.name, ck))
         if k == "DeclRefExpr":
             d = n["referencedDecl"]
             if d.get("kind") == "EnumConstantDecl":
-                return self.const(d["name"]), []
+                return self.const(d["name"]), [], []
             nm = d["name"]
-            if lname(nm) in self.scalars and nm not in self.ptr_params:
-                return "s.%s" % lname(nm), []
+            if nm in self.ptr:
+                fail("%s: pointer %s used as an integer" % (self.name, nm))
+            if lname(nm) in self.scalars:
+                return "s.%s" % lname(nm), [], []
             fail("%s: read of %s (%s) outside the subset" % (self.name, nm, d.get("kind")))
         if k in ("ArraySubscriptExpr", "MemberExpr") or (k == "UnaryOperator" and n.get("opcode") == "*"):
             lv = self.lvalue(n)
             if lv[0] == "scalar":
-                return "s.%s" % lv[1], []
-            return "(s.%s.getD (Int.toNat (%s)) 0)" % (lv[1], lv[2]), lv[3]
+                return "s.%s" % lv[1], [], []
+            return self.read(lv[1], lv[2]), lv[3], lv[4]
         if k == "UnaryOperator":
             op = n["opcode"]
-            t, c = self.rvalue(n["inner"][0])
-            if op == "-":
-                return "(- %s)" % t, c
-            if op == "+":
-                return t, c
+            if op in ("++", "--"):
+                lv = self.lvalue(n["inner"][0])
+                if lv[0] != "scalar" or lv[2] == "ptr":
+                    fail("%s: ++/-- on a memory cell or pointer inside an integer expression" % self.name)
+                ty = lv[2]
+                cur = "s.%s" % lv[1]
+                new = self.arith("+" if op == "++" else "-", cur, "1", ty)
+                eff = Eff(lv, new, lv[1])
+                return (cur if n.get("isPostfix") else new), [], [eff]
+            ty = int_width(qt(n))
             if op == "!":
-                return "(if %s = 0 then 1 else 0)" % t, c
+                b, c, e = self.cond(n["inner"][0])
+                return "(if %s then 0 else 1)" % b, c, e
+            t, c, e = self.rvalue(n["inner"][0])
+            if op == "-":
+                return self.wrapu("(- %s)" % t, ty), c, e
+            if op == "+":
+                return t, c, e
             if op == "~":
-                w = int_width(qt(n))
-                return "(-(%s) - 1)" % t, c
+                return self.wrapu("(-(%s) - 1)" % t, ty), c, e
             fail("%s: unary %s inside an expression" % (self.name, op))
         if k == "BinaryOperator":
             op = n["opcode"]
             if op in ("&&", "||", "<", "<=", ">", ">=", "==", "!="):
-                b, c = self.cond(n)
-                return "(if %s then 1 else 0)" % b, c
-            if op == ",":
-                fail("%s: comma operator" % self.name)
-            if op == "=":
-                fail("%s: assignment inside an expression" % self.name)
-            a, ca = self.rvalue(n["inner"][0])
-            b, cb = self.rvalue(n["inner"][1])
-            return self.binop(op, a, b, ca + cb, n)
+                b, c, e = self.cond(n)
+                return "(if %s then 1 else 0)" % b, c, e
+            if op in (",", "="):
+                fail("%s: operator `%s` inside an expression" % (self.name, op))
+            a, b = n["inner"]
+            if op == "-" and ptr_elem(qt(a)) is not None and ptr_elem(qt(b)) is not None:
+                ra, ia, ca, ea = self.pexpr(a)
+                rb, ib, cb, eb = self.pexpr(b)
+                if ra != rb:
+                    fail("%s: difference of pointers into different regions (%s, %s)" % (self.name, ra, rb))
+                return "(%s - %s)" % (ia, ib), ca + cb, ea + eb
+            ta, ca, ea = self.rvalue(a)
+            tb, cb, eb = self.rvalue(b)
+            t, c = self.binop(op, ta, tb, int_width(qt(n)))
+            return t, ca + cb + c, ea + eb
         if k == "ConditionalOperator":
-            c, cc = self.cond(n["inner"][0])
-            a, ca = self.rvalue(n["inner"][1])
-            b, cb = self.rvalue(n["inner"][2])
-            return "(if %s then %s else %s)" % (c, a, b), cc + ["¬(%s) ∨ (%s)" % (c, x) for x in ca] + ["(%s) ∨ (%s)" % (c, x) for x in cb]
+            c, cc, ce = self.cond(n["inner"][0])
+            a, ca, ea = self.rvalue(n["inner"][1])
+            b, cb, eb = self.rvalue(n["inner"][2])
+            if ea or eb:
+                fail("%s: side effect inside ?:" % self.name)
+            return "(if %s then %s else %s)" % (c, a, b), cc + ["¬(%s) ∨ (%s)" % (c, x) for x in ca] + ["(%s) ∨ (%s)" % (c, x) for x in cb], ce
         if k == "UnaryExprOrTypeTraitExpr" and n.get("name") == "sizeof":
             at = n.get("argType", {}).get("qualType")
             w = int_width(at) if at else None
             if w is None:
                 fail("%s: sizeof of %s" % (self.name, at))
-            return str(w[1] // 8), []
-        if k == "CallExpr":
-            return self.call(n)
+            return str(w[1] // 8), [], []
         fail("%s: unsupported expression %s" % (self.name, k))
 
     def const(self, name):
@@ -276,143 +455,253 @@ class Fn:
             fail("%s: constant %s not provided" % (self.name, name))
         return str(v)
 
-    def wrap(self, t, w):
-        signed, bits = w
-        if bits >= 32:
-            return t
-        m = 2 ** bits
-        if signed:
-            return "(((%s) + %d) %% %d - %d)" % (t, m // 2, m, m // 2)
-        return "((%s) %% %d)" % (t, m)
+    def wrapu(self, t, ty):
+        if ty is not None and not ty[0]:
+            return "((%s) %% %d)" % (t, 2 ** ty[1])
+        return t
 
-    def binop(self, op, a, b, c, n):
-        if op == "+":
-            return "(%s + %s)" % (a, b), c
-        if op == "-":
-            return "(%s - %s)" % (a, b), c
-        if op == "*":
-            return "(%s * %s)" % (a, b), c
+    def arith(self, op, a, b, ty):
+        return self.wrapu("(%s %s %s)" % (a, op, b), ty)
+
+    def binop(self, op, a, b, ty):
+        if op in ("+", "-", "*"):
+            return self.arith(op, a, b, ty), []
         if op == "/":
-            return "(Int.tdiv %s %s)" % (a, b), c + ["%s ≠ 0" % b]
+            return "(Int.tdiv %s %s)" % (a, b), ["%s ≠ 0" % b]
         if op == "%":
-            return "(Int.tmod %s %s)" % (a, b), c + ["%s ≠ 0" % b]
+            return "(Int.tmod %s %s)" % (a, b), ["%s ≠ 0" % b]
         if op in ("&", "|", "^"):
             f = {"&": "&&&", "|": "|||", "^": "^^^"}[op]
-            return "(Int.ofNat (Int.toNat (%s) %s Int.toNat (%s)))" % (a, f, b), c + ["0 ≤ %s ∧ 0 ≤ %s" % (a, b)]
+            return "(Int.ofNat (Int.toNat (%s) %s Int.toNat (%s)))" % (a, f, b), ["(0 : Int) ≤ %s ∧ (0 : Int) ≤ %s" % (a, b)]
         if op == "<<":
-            return "(%s * 2 ^ Int.toNat (%s))" % (a, b), c + ["0 ≤ %s ∧ 0 ≤ %s ∧ %s < 32" % (a, b, b)]
+            return self.wrapu("(%s * 2 ^ Int.toNat (%s))" % (a, b), ty), ["(0 : Int) ≤ %s ∧ (0 : Int) ≤ %s ∧ %s < (%d : Int)" % (a, b, b, ty[1] if ty else 32)]
         if op == ">>":
-            return "(%s / 2 ^ Int.toNat (%s))" % (a, b), c + ["0 ≤ %s ∧ 0 ≤ %s ∧ %s < 32" % (a, b, b)]
+            return "(%s / 2 ^ Int.toNat (%s))" % (a, b), ["(0 : Int) ≤ %s ∧ (0 : Int) ≤ %s ∧ %s < (%d : Int)" % (a, b, b, ty[1] if ty else 32)]
         fail("%s: binary operator %s" % (self.name, op))
 
     def cond(self, n):
-        """C expression used as a truth value -> (Lean decidable Prop, checks)"""
-        n = self.strip(n)
+        """C expression used as a truth value -> (Lean decidable Prop, checks, effects)"""
         k = n.get("kind")
+        if k in ("ParenExpr", "ConstantExpr"):
+            return self.cond(n["inner"][0])
+        if k == "ImplicitCastExpr" and n.get("castKind") == "PointerToBoolean":
+            return self.nulltest(n["inner"][0], False)
+        if k == "ImplicitCastExpr" and n.get("castKind") == "IntegralToBoolean":
+            return self.cond(n["inner"][0])
         if k == "BinaryOperator":
             op = n["opcode"]
+            a, b = n["inner"]
             if op in ("<", "<=", ">", ">=", "==", "!="):
-                a, ca = self.rvalue(n["inner"][0])
-                b, cb = self.rvalue(n["inner"][1])
                 lop = {"<": "<", "<=": "≤", ">": ">", ">=": "≥", "==": "=", "!=": "≠"}[op]
-                return "(%s %s %s)" % (a, lop, b), ca + cb
+                if ptr_elem(qt(a)) is not None or ptr_elem(qt(b)) is not None:
+                    if op in ("==", "!=") and (self.is_null(a) or self.is_null(b)):
+                        return self.nulltest(b if self.is_null(a) else a, op == "==")
+                    ra, ia, ca, ea = self.pexpr(a)
+                    rb, ib, cb, eb = self.pexpr(b)
+                    if ra != rb:
+                        fail("%s: comparison of pointers into different regions (%s, %s)" % (self.name, ra, rb))
+                    return "(%s %s %s)" % (ia, lop, ib), ca + cb, ea + eb
+                ta, ca, ea = self.rvalue(a)
+                tb, cb, eb = self.rvalue(b)
+                return "(%s %s %s)" % (ta, lop, tb), ca + cb, ea + eb
             if op == "&&":
-                a, ca = self.cond(n["inner"][0])
-                b, cb = self.cond(n["inner"][1])
-                return "(%s ∧ %s)" % (a, b), ca + ["¬%s ∨ (%s)" % (a, x) for x in cb]
+                ta, ca, ea = self.cond(a)
+                tb, cb, eb = self.cond(b)
+                if eb:
+                    fail("%s: side effect on the right of &&" % self.name)
+                return "(%s ∧ %s)" % (ta, tb), ca + ["¬%s ∨ (%s)" % (ta, x) for x in cb], ea
             if op == "||":
-                a, ca = self.cond(n["inner"][0])
-                b, cb = self.cond(n["inner"][1])
-                return "(%s ∨ %s)" % (a, b), ca + ["%s ∨ (%s)" % (a, x) for x in cb]
+                ta, ca, ea = self.cond(a)
+                tb, cb, eb = self.cond(b)
+                if eb:
+                    fail("%s: side effect on the right of ||" % self.name)
+                return "(%s ∨ %s)" % (ta, tb), ca + ["%s ∨ (%s)" % (ta, x) for x in cb], ea
         if k == "UnaryOperator" and n.get("opcode") == "!":
-            a, ca = self.cond(n["inner"][0])
-            return "(¬%s)" % a, ca
-        t, c = self.rvalue(n)
-        return "(%s ≠ 0)" % t, c
+            a, ca, ea = self.cond(n["inner"][0])
+            return "(¬%s)" % a, ca, ea
+        if ptr_elem(qt(n)) is not None:
+            return self.nulltest(n, False)
+        t, c, e = self.rvalue(n)
+        return "(%s ≠ 0)" % t, c, e
 
-    def call(self, n):
-        fail("%s: call expression" % self.name)
+    def nulltest(self, n, want_null):
+        """p == NULL (want_null) / p != NULL"""
+        n = self.skip(n)
+        k = n.get("kind")
+        f = None
+        if k == "DeclRefExpr":
+            nm = n["referencedDecl"]["name"]
+            if nm in self.structs or nm in self.ptr_is_param_region:
+                f = self.owned(nm, self.boolf, "%s_null" % nm)
+        if k == "MemberExpr":
+            p, path = self.member_chain(n)
+            if p is not None:
+                f = self.owned(p, self.boolf, "%s_%s_null" % (p, "_".join(path)))
+        if f is None:
+            fail("%s: NULL test of %s" % (self.name, k))
+        return ("(s.%s = true)" if want_null else "(s.%s = false)") % f, [], []
 
     # ---------------------------------------------------------------- statements
-    # a statement translates to a list of Lean lines, each `let s := …` (the state variable is always `s`)
     def checks(self, cs, ind):
-        out = []
-        seen = []
+        out, seen = [], []
         for c in cs:
             if c not in seen:
                 seen.append(c)
-                out.append("%slet s := %s.chk s (%s)" % (ind, self.name, c))
+                out.append("%s%s s : %s.St := %s.chk s (%s)" % (ind, self.bind(), self.name, self.name, c))
         return out
+
+    def bind(self):
+        """`let` in the first style (opts['inline_body']); otherwise `have`: the value of a `have`-bound state is not visible to the
+        elaborator (no zeta-delta), which keeps elaboration linear in the number of statements (with `let` it is exponential)"""
+        return "let" if self.opts.get("inline_body") else "have"
+
+    def upd(self, field, term, ind):
+        """s := { s with field := term }.  Written through a per-field setter DEFINITION (unless opts['inline_body'], the first style):
+        a literal `{ s with … }` whose source is a let-bound constructor application makes Lean copy the field terms, and a chain of
+        n such updates grows exponentially"""
+        if self.opts.get("inline_body"):
+            return "%slet s : %s.St := { s with %s := %s }" % (ind, self.name, field, term)
+        if field not in self.setters:
+            self.setters.append(field)
+        return "%shave s : %s.St := %s.St.set_%s s (%s)" % (ind, self.name, self.name, field, term)
 
     def assign(self, lv, term, ind):
         if lv[0] == "scalar":
-            return ["%slet s := { s with %s := %s }" % (ind, lv[1], term)]
-        return ["%slet s := { s with %s := s.%s.set (Int.toNat (%s)) (%s) }" % (ind, lv[1], lv[1], lv[2], term)]
+            return [self.upd(lv[1], term, ind)]
+        return [self.upd(lv[1], "s.%s.set (Int.toNat (%s)) (%s)" % (lv[1], lv[2], term), ind)]
 
-    def guard(self, lines, ind):
-        """statements after a return/break/continue in the same region are skipped"""
-        return lines
+    def effects(self, effs, ind, also=()):
+        """apply pending ++/-- effects; their right-hand sides denote values in the state before the statement, so when another
+        assignment happens first (or several are pending) they are bound to names in that state"""
+        if not effs:
+            return []
+        vars_ = [e.var for e in effs] + list(also)
+        if len(set(vars_)) != len(vars_):
+            fail("%s: a variable is modified twice (or modified and assigned) in one expression" % self.name)
+        if len(effs) == 1 and not also:
+            return self.assign(effs[0].lv, effs[0].term, ind)
+        fail("%s: internal: effects need pre-binding" % self.name)
+
+    def with_effects(self, pre_checks, main, effs, ind):
+        """main: list of (lv, term) assignments whose terms (and index terms) refer to the old state; effs: pending ++/--"""
+        out = self.checks(pre_checks, ind)
+        if not effs:
+            for lv, t in main:
+                out += self.assign(lv, t, ind)
+            return out
+        vars_ = [e.var for e in effs] + [lv[1] for lv, _ in main if lv[0] == "scalar"]
+        if len(set(vars_)) != len(vars_):
+            fail("%s: a variable is modified twice in one statement" % self.name)
+        k = 0
+        bound = []
+        for lv, t in main:
+            out.append("%slet v%d : Int := %s" % (ind, k, t))
+            if lv[0] == "elem":
+                out.append("%slet ix%d : Int := %s" % (ind, k, lv[2]))
+                bound.append((("elem", lv[1], "ix%d" % k), "v%d" % k))
+            else:
+                bound.append((lv, "v%d" % k))
+            k += 1
+        for i, e in enumerate(effs):
+            out.append("%slet e%d : Int := %s" % (ind, i, e.term))
+        for lv, t in bound:
+            out += self.assign(lv, t, ind)
+        for i, e in enumerate(effs):
+            out += self.assign(e.lv, "e%d" % i, ind)
+        return out
 
     def stmt(self, n, ind):
         k = n.get("kind")
         if k is None or k == "NullStmt":
             return []
         if k == "CompoundStmt":
-            out = []
+            # a statement is guarded by the pending return/break/continue flags only when an EARLIER statement of the same block can set one
+            out, may_exit = [], False
             for c in n.get("inner", []):
-                out += self.wrapskip(self.stmt(c, ind + ("  " if self.has_ret or self.has_brk else "")), ind)
+                if may_exit:
+                    out += self.wrapskip(self.stmt(c, ind + "  "), ind)
+                else:
+                    out += self.stmt(c, ind)
+                may_exit = may_exit or self.can_exit(c)
             return out
         if k == "DeclStmt":
             out = []
             for d in n.get("inner", []):
                 if d.get("kind") != "VarDecl":
                     fail("%s: declaration of %s" % (self.name, d.get("kind")))
-                if int_width(qt(d)) is None:
-                    fail("%s: local %s of type %s" % (self.name, d["name"], qt(d)))
+                nm = d["name"]
+                init = [c for c in d.get("inner", []) if c.get("kind")]
+                if lname(nm) in self.local_regions or (nm in self.statics and nm in self.ptr_is_param_region):
+                    if init:
+                        fail("%s: initialised local array %s" % (self.name, nm))
+                    continue
                 if d.get("storageClass") == "static":
-                    fail("%s: static local %s" % (self.name, d["name"]))
-                nm = self.scalar(d["name"])
-                init = [c for c in d.get("inner", []) if c.get("kind") not in (None,)]
+                    continue     # a static local is an entry parameter (its value persists between calls); its initialiser is not re-run
+                if nm in self.ptr:
+                    if init and not self.is_null(init[0]):
+                        r, i, c, e = self.pexpr(init[0])
+                        self.same_region(nm, r)
+                        out += self.with_effects(c, [(("scalar", lname(nm)), i)], e, ind)
+                    continue
+                ty = int_width(qt(d))
+                if ty is None:
+                    fail("%s: local %s of type %s" % (self.name, nm, qt(d)))
+                self.scalar(nm)
                 if init:
-                    t, c = self.rvalue(init[0])
-                    out += self.checks(c, ind) + self.assign(("scalar", nm), self.wrap(t, int_width(qt(d))), ind)
+                    t, c, e = self.rvalue(init[0])
+                    out += self.with_effects(c, [(("scalar", lname(nm)), t)], e, ind)
             return out
+        if k == "ParenExpr" or (k in ("ImplicitCastExpr", "CStyleCastExpr") and n.get("castKind") == "ToVoid"):
+            return self.stmt(n["inner"][0], ind)
+        if k == "BinaryOperator" and n["opcode"] == ",":
+            return self.stmt(n["inner"][0], ind) + self.stmt(n["inner"][1], ind)
         if k == "BinaryOperator" and n["opcode"] == "=":
-            rhs = self.strip(n["inner"][1])
-            if rhs.get("kind") == "BinaryOperator" and rhs.get("opcode") == "=":
-                # chained assignment a = b = e
-                inner = self.stmt(rhs, ind)
-                lv = self.lvalue(n["inner"][0])
-                t, c = self.rvalue(rhs["inner"][0])
-                return inner + self.checks((lv[3] if lv[0] == "elem" else []) + c, ind) + self.assign(lv, t, ind)
-            t, c = self.rvalue(n["inner"][1])
-            lv = self.lvalue(n["inner"][0])
-            w = int_width(qt(n))
-            if w is None:
-                fail("%s: assignment of type %s" % (self.name, qt(n)))
-            return self.checks(c + (lv[3] if lv[0] == "elem" else []), ind) + self.assign(lv, self.wrap(t, w), ind)
+            return self.assignment(n, ind)
         if k == "CompoundAssignOperator":
             op = n["opcode"][:-1]
-            lv = self.lvalue(n["inner"][0])
-            cur = "s.%s" % lv[1] if lv[0] == "scalar" else "(s.%s.getD (Int.toNat (%s)) 0)" % (lv[1], lv[2])
-            t, c = self.rvalue(n["inner"][1])
-            v, c2 = self.binop(op, cur, t, c, n)
-            w = int_width(qt(n))
-            return self.checks(c2 + (lv[3] if lv[0] == "elem" else []), ind) + self.assign(lv, self.wrap(v, w), ind)
+            lhs, rhs = n["inner"]
+            if ptr_elem(qt(lhs)) is not None:
+                sl = self.skip(lhs)
+                if sl.get("kind") != "DeclRefExpr" or sl["referencedDecl"]["name"] not in self.ptr or sl["referencedDecl"]["name"] in self.ptr_is_param_region:
+                    fail("%s: compound assignment to a pointer expression" % self.name)
+                if op not in ("+", "-"):
+                    fail("%s: pointer %s=" % (self.name, op))
+                nm = lname(sl["referencedDecl"]["name"])
+                t, c, e = self.rvalue(rhs)
+                return self.with_effects(c, [(("scalar", nm), "(s.%s %s %s)" % (nm, op, t))], e, ind)
+            lv = self.lvalue(lhs)
+            cur = "s.%s" % lv[1] if lv[0] == "scalar" else self.read(lv[1], lv[2])
+            t, c, e = self.rvalue(rhs)
+            comp = n.get("computeResultType", {})
+            cty = int_width(comp.get("desugaredQualType", comp.get("qualType", ""))) or int_width(qt(n))
+            lty = int_width(qt(lhs))
+            v, c2 = self.binop(op, self.conv(cur, lty, cty), t, cty)
+            v = self.conv(v, cty, lty)
+            le = lv[4] if lv[0] == "elem" else []
+            return self.with_effects(c + c2 + (lv[3] if lv[0] == "elem" else []), [(lv, v)], e + le, ind)
         if k == "UnaryOperator" and n.get("opcode") in ("++", "--"):
-            lv = self.lvalue(n["inner"][0])
-            cur = "s.%s" % lv[1] if lv[0] == "scalar" else "(s.%s.getD (Int.toNat (%s)) 0)" % (lv[1], lv[2])
-            v = "(%s %s 1)" % (cur, "+" if n["opcode"] == "++" else "-")
-            return self.checks(lv[3] if lv[0] == "elem" else [], ind) + self.assign(lv, v, ind)
-        if k == "ParenExpr" or (k in ("ImplicitCastExpr", "CStyleCastExpr") and base_type(qt(n)) == "void"):
-            return self.stmt(n["inner"][0], ind)
+            sub = n["inner"][0]
+            if ptr_elem(qt(sub)) is not None:
+                r, i, c, e = self.pexpr(n)
+                return self.with_effects(c, [], e, ind)
+            lv = self.lvalue(sub)
+            cur = "s.%s" % lv[1] if lv[0] == "scalar" else self.read(lv[1], lv[2])
+            v = self.arith("+" if n["opcode"] == "++" else "-", cur, "1", int_width(qt(n)))
+            le = lv[4] if lv[0] == "elem" else []
+            return self.with_effects(lv[3] if lv[0] == "elem" else [], [(lv, v)], le, ind)
+        if k == "CallExpr":
+            return self.callstmt(n, ind)
         if k == "IfStmt":
             inner = n["inner"]
-            c, cc = self.cond(inner[0])
+            c, cc, ce = self.cond(inner[0])
+            out = self.checks(cc, ind)
+            if ce:
+                out.append("%slet c : Bool := decide %s" % (ind, c))
+                out += self.with_effects([], [], ce, ind)
+                c = "c = true"
             th = self.stmt(inner[1], ind + "    ")
             el = self.stmt(inner[2], ind + "    ") if len(inner) > 2 else []
-            out = self.checks(cc, ind)
-            out.append("%slet s := if %s then" % (ind, c))
+            out.append("%s%s s : %s.St := if %s then" % (ind, self.bind(), self.name, c))
             out += th + ["%s    s" % ind, "%s  else" % ind] + el + ["%s    s" % ind]
             return out
         if k in ("ForStmt", "WhileStmt", "DoStmt"):
@@ -420,23 +709,111 @@ class Fn:
         if k == "ReturnStmt":
             out = []
             if n.get("inner"):
-                t, c = self.rvalue(n["inner"][0])
-                out += self.checks(c, ind) + ["%slet s := { s with ret := %s }" % (ind, t)]
+                e0 = n["inner"][0]
+                if ptr_elem(qt(e0)) is not None:
+                    if self.is_null(e0):
+                        out.append(self.upd("retnull", "true", ind))
+                    else:
+                        r, i, c, e = self.pexpr(e0)
+                        if self.ret_region not in (None, r):
+                            fail("%s: returns pointers into different regions" % self.name)
+                        self.ret_region = r
+                        if e:
+                            fail("%s: side effect in return" % self.name)
+                        out += self.checks(c, ind) + [self.upd("ret", i, ind)]
+                else:
+                    t, c, e = self.rvalue(e0)
+                    if e:
+                        fail("%s: side effect in return" % self.name)
+                    out += self.checks(c, ind) + [self.upd("ret", t, ind)]
             if self.has_ret:
-                out.append("%slet s := { s with done := true }" % ind)
+                out.append(self.upd("done", "true", ind))
             return out
         if k == "BreakStmt":
-            return ["%slet s := { s with brk := true }" % ind]
+            return [self.upd("brk", "true", ind)]
         if k == "ContinueStmt":
-            return ["%slet s := { s with cnt := true }" % ind]
+            return [self.upd("cnt", "true", ind)]
         fail("%s: unsupported statement %s" % (self.name, k))
+
+    def assignment(self, n, ind):
+        lhs, rhs = n["inner"]
+        # chained assignment a = b = e : the inner one first, then a = (the value stored in b)
+        srhs = rhs
+        while srhs.get("kind") in ("ParenExpr", "ImplicitCastExpr", "CStyleCastExpr"):
+            srhs = srhs["inner"][0]
+        chained = srhs.get("kind") == "BinaryOperator" and srhs.get("opcode") == "="
+        if ptr_elem(qt(lhs)) is not None:
+            sl = self.skip(lhs)
+            if sl.get("kind") != "DeclRefExpr" or sl["referencedDecl"]["name"] not in self.ptr:
+                fail("%s: assignment to a pointer that is not a local variable" % self.name)
+            nm = sl["referencedDecl"]["name"]
+            if nm in self.ptr_is_param_region or lname(nm) in self.local_regions:
+                fail("%s: assignment to pointer parameter %s, which is used as a region" % (self.name, nm))
+            if self.is_null(rhs):
+                fail("%s: NULL assigned to pointer %s" % (self.name, nm))
+            if chained:
+                inner = self.assignment(srhs, ind)
+                r, i, c, e = self.pexpr(srhs["inner"][0])
+                self.same_region(nm, r)
+                return inner + self.assign(("scalar", lname(nm)), i, ind)
+            r, i, c, e = self.pexpr(rhs)
+            self.same_region(nm, r)
+            return self.with_effects(c, [(("scalar", lname(nm)), i)], e, ind)
+        if chained:
+            inner = self.assignment(srhs, ind)
+            lv = self.lvalue(lhs)
+            t, c, e = self.rvalue(srhs["inner"][0])
+            # conversions written between the two assignments
+            t = self.conv_chain(rhs, srhs, t)
+            if e or (lv[0] == "elem" and lv[4]):
+                fail("%s: side effect in chained assignment" % self.name)
+            return inner + self.checks((lv[3] if lv[0] == "elem" else []) + c, ind) + self.assign(lv, t, ind)
+        t, c, e = self.rvalue(rhs)
+        lv = self.lvalue(lhs)
+        le = lv[4] if lv[0] == "elem" else []
+        return self.with_effects(c + (lv[3] if lv[0] == "elem" else []), [(lv, t)], e + le, ind)
+
+    def conv_chain(self, outer, inner, t):
+        casts = []
+        n = outer
+        while n is not inner:
+            if n.get("kind") in ("ImplicitCastExpr", "CStyleCastExpr") and n.get("castKind") == "IntegralCast":
+                casts.append((int_width(qt(n["inner"][0])), int_width(qt(n))))
+            n = n["inner"][0]
+        for frm, to in reversed(casts):
+            t = self.conv(t, frm, to)
+        return t
+
+    def callstmt(self, n, ind):
+        callee = self.skip(n["inner"][0])
+        nm = callee.get("referencedDecl", {}).get("name")
+        if nm in self.ignore:
+            return []
+        if nm in ("memcpy", "__builtin_memcpy", "HDmemcpy"):
+            rd, idd, cd, ed = self.pexpr(n["inner"][1])
+            rs_, is_, cs, es = self.pexpr(n["inner"][2])
+            t, c, e = self.rvalue(n["inner"][3])
+            if ed or es or e:
+                fail("%s: side effect in memcpy arguments" % self.name)
+            out = self.checks(cd + cs + c, ind)
+            out += self.checks(["(0 : Int) ≤ %s" % t, "0 ≤ %s ∧ %s + %s ≤ s.%s.length" % (idd, idd, t, rd), "0 ≤ %s ∧ %s + %s ≤ s.%s.length" % (is_, is_, t, rs_)], ind)
+            if rd == rs_:
+                out += self.checks(["%s + %s ≤ %s ∨ %s + %s ≤ %s ∨ %s = 0" % (idd, t, is_, is_, t, idd, t)], ind)
+            out.append(self.upd(rd, "(s.%s.take (Int.toNat (%s))) ++ ((s.%s.drop (Int.toNat (%s))).take (Int.toNat (%s))) ++ (s.%s.drop (Int.toNat (%s + %s)))"
+                                % (rd, idd, rs_, is_, t, rd, idd, t), ind))
+            return out
+        fail("%s: call of %s" % (self.name, nm))
+
+    def can_exit(self, n):
+        if n.get("kind") in ("ReturnStmt", "BreakStmt", "ContinueStmt"):
+            return True
+        return any(self.can_exit(c) for c in n.get("inner", []))
 
     def wrapskip(self, lines, ind):
         if not lines or not (self.has_ret or self.has_brk):
             return lines
         cond = " ∨ ".join((["s.done"] if self.has_ret else []) + (["s.brk ∨ s.cnt"] if self.has_brk else []))
-        body = [("  " + l) if False else l for l in lines]
-        return ["%slet s := if %s then s else" % (ind, cond)] + body + ["%s  s" % ind]
+        return ["%s%s s : %s.St := if %s then s else" % (ind, self.bind(), self.name, cond)] + lines + ["%s  s" % ind]
 
     def loop(self, n, ind):
         k = n["kind"]
@@ -452,33 +829,114 @@ class Fn:
             out += self.stmt(init, ind)
         idx = self.nloops
         self.nloops += 1
-        lname_ = "%s.loop%d" % (self.name, idx)
+        ln = "%s.loop%d" % (self.name, idx)
         if cond is not None and cond.get("kind"):
-            c, cc = self.cond(cond)
+            c, cc, ce = self.cond(cond)
         else:
-            c, cc = "True", []
-        bl = self.stmt(body, "      ")
-        il = self.stmt(inc, "      ") if inc is not None and inc.get("kind") else []
+            c, cc, ce = "True", [], []
+        bl = self.stmt(body, "        ")
+        il = self.stmt(inc, "        ") if inc is not None and inc.get("kind") else []
         stop = ""
         if self.has_ret or self.has_brk:
             stop = " ∧ ¬(" + " ∨ ".join((["s.done"] if self.has_ret else []) + (["s.brk"] if self.has_brk else [])) + ")"
-        reset = ["      let s := { s with cnt := false }"] if self.has_brk else []
-        d = ["def %s (fuel : Nat) (s : %s.St) : %s.St :=" % (lname_, self.name, self.name), "  match fuel with", "  | 0 =>"]
-        d += self.checks(cc, "      ")
-        d += ["      if %s%s then { s with oof := true } else s" % (c, stop), "  | fuel' + 1 =>"]
-        d += self.checks(cc, "      ")
-        d += ["      if %s%s then" % (c, stop)]
-        d += ["  " + l for l in bl] + ["  " + l for l in reset] + ["  " + l for l in il]
-        d += ["        %s fuel' s" % lname_, "      else s", ""]
-        # nested loops were appended to self.loops while translating the body: this one goes after them
-        self.loops.append("\n".join(d).replace("%s fuel s" % "\0", ""))
+        reset = [self.upd("cnt", "false", "        ")] if self.has_brk else []
+        pre = self.checks(cc, "      ")
+        if ce:
+            pre.append("      let c : Bool := decide (%s%s)" % (c, stop))
+            pre += self.with_effects([], [], ce, "      ")
+            test = "c = true"
+        else:
+            test = "%s%s" % (c, stop)
+        if self.opts.get("inline_body"):
+            d = ["def %s (fuel : Nat) (s : %s.St) : %s.St :=" % (ln, self.name, self.name), "  match fuel with", "  | 0 =>"]
+            d += pre
+            d += ["      if %s then %s else s" % (test, "{ s with oof := true }"), "  | fuel' + 1 =>"]
+            d += pre
+            d += ["      if %s then" % test]
+            d += bl + reset + il
+            d += ["        %s fuel' s" % ln, "      else s", ""]
+        else:
+            # the loop body is a definition of its own (non-recursive): the recursive definition stays small, which keeps Lean's
+            # structural-recursion elaboration fast, and `loop (fuel+1) s = loop fuel (body fuel s)` is one unfolding in proofs
+            d = ["/-- one pass through the body of loop %d of `%s` (followed by the loop increment) -/" % (idx, self.name),
+                 "def %s.body (fuel : Nat) (s : %s.St) : %s.St :=" % (ln, self.name, self.name)]
+            d += [l[4:] for l in (bl + reset + il)] + ["    s", ""]
+            d += ["def %s (fuel : Nat) (s : %s.St) : %s.St :=" % (ln, self.name, self.name), "  match fuel with", "  | 0 =>"]
+            d += pre
+            d += ["      if %s then %s else s" % (test, "{ s with oof := true }"), "  | fuel' + 1 =>"]
+            d += pre
+            d += ["      if %s then %s fuel' (%s.body fuel s) else s" % (test, ln, ln), ""]
+        self.loops.append("\n".join(d))
         if k == "DoStmt":
-            out += [l.replace("      ", ind, 1) if l.startswith("      ") else l for l in bl]
-            out += ["%slet s := { s with cnt := false }" % ind] if self.has_brk else []
-        out.append("%slet s := %s fuel s" % (ind, lname_))
+            out += [(ind + l[8:]) if l.startswith("        ") else l for l in bl]
+            if self.has_brk:
+                out.append(self.upd("cnt", "false", ind))
+        out.append("%s%s s : %s.St := %s fuel s" % (ind, self.bind(), self.name, ln))
         if self.has_brk:
-            out.append("%slet s := { s with brk := false }" % ind)
+            out.append(self.upd("brk", "false", ind))
         return out
+
+    # ---------------------------------------------------------------- pointer regions of locals (static resolution)
+    def same_region(self, nm, r):
+        if self.ptr.get(nm) != r:
+            fail("%s: pointer %s is bound to region %s but assigned a pointer into %s" % (self.name, nm, self.ptr.get(nm), r))
+
+    def static_region(self, n):
+        """region of a pointer expression without generating code (None = not yet known)"""
+        n = self.skip(n)
+        k = n.get("kind")
+        if k == "DeclRefExpr":
+            nm = n["referencedDecl"]["name"]
+            if nm in self.globals:
+                return "@" + nm
+            return self.ptr.get(nm)
+        if k == "MemberExpr":
+            p, path = self.member_chain(n)
+            return lname("%s_%s" % (p, "_".join(path))) if p else None
+        if k == "ArraySubscriptExpr":
+            return self.static_region(n["inner"][0])
+        if k == "BinaryOperator" and n["opcode"] in ("+", "-"):
+            a, b = n["inner"]
+            return self.static_region(a if ptr_elem(qt(a)) is not None else b)
+        if k == "UnaryOperator" and n["opcode"] in ("&", "++", "--"):
+            return self.static_region(n["inner"][0])
+        if k == "BinaryOperator" and n["opcode"] == "=":
+            return self.static_region(n["inner"][1])
+        return None
+
+    def resolve_ptr_locals(self, body):
+        assigns = []    # (pointer local, rhs node)
+
+        def walk(n):
+            k = n.get("kind")
+            if k == "VarDecl" and ptr_elem(qt(n)) is not None and not re.search(r"\[\d+\]$", base_type(qt(n))):
+                init = [c for c in n.get("inner", []) if c.get("kind")]
+                self.ptr.setdefault(n["name"], None)
+                if n.get("storageClass") == "static":
+                    self.statics.append(n["name"])
+                if init and not self.is_null(init[0]):
+                    assigns.append((n["name"], init[0]))
+            if k == "BinaryOperator" and n.get("opcode") == "=" and ptr_elem(qt(n["inner"][0])) is not None:
+                l = self.skip(n["inner"][0])
+                if l.get("kind") == "DeclRefExpr" and not self.is_null(n["inner"][1]):
+                    assigns.append((l["referencedDecl"]["name"], n["inner"][1]))
+            for c in n.get("inner", []):
+                walk(c)
+        walk(body)
+        changed = True
+        while changed:
+            changed = False
+            for nm, rhs in assigns:
+                if nm in self.ptr_is_param_region:
+                    continue
+                r = self.static_region(rhs)
+                if r is not None and self.ptr.get(nm) is None:
+                    self.ptr[nm] = r
+                    changed = True
+        for nm, rhs in assigns:
+            r = self.static_region(rhs)
+            if r is not None and nm not in self.ptr_is_param_region and self.ptr.get(nm) != r:
+                fail("%s: pointer %s points into two regions (%s, %s)" % (self.name, nm, self.ptr.get(nm), r))
 
     # ---------------------------------------------------------------- whole function
     def scan_flags(self, n):
@@ -492,55 +950,102 @@ class Fn:
         for c in n.get("inner", []):
             self.scan_flags(c)
 
+    def assigned_vars(self, body):
+        out = set()
+
+        def walk(n):
+            k = n.get("kind")
+            if (k == "BinaryOperator" and n.get("opcode") == "=") or k == "CompoundAssignOperator" or (k == "UnaryOperator" and n.get("opcode") in ("++", "--")):
+                l = self.skip(n["inner"][0])
+                if l.get("kind") == "DeclRefExpr":
+                    out.add(l["referencedDecl"]["name"])
+            for c in n.get("inner", []):
+                walk(c)
+        walk(body)
+        return out
+
     def translate(self):
         ast = self.ast
         body = [c for c in ast["inner"] if c.get("kind") == "CompoundStmt"][0]
-        plist = []
+        mutated = self.assigned_vars(body)
         for p in [c for c in ast["inner"] if c.get("kind") == "ParmVarDecl"]:
             t = base_type(qt(p))
             nm = p["name"]
+            self.plist.append(nm)
+            self.owner = nm
             if int_width(t) is not None:
-                self.scalar(nm)
-                plist.append(("scalar", nm))
-            elif t.endswith("*"):
-                el = base_type(t[:-1])
-                if int_width(el) is not None:
-                    self.ptr_params.add(nm)
-                    plist.append(("array", nm))
-                elif el.endswith("*"):
-                    fail("%s: parameter %s of type %s" % (self.name, nm, t))
-                else:
-                    self.struct_params[nm] = "struct"
-                    plist.append(("struct", nm))
-            else:
+                self.scalar(nm, entry=True)
+                continue
+            el = ptr_elem(t)
+            if el is None:
                 fail("%s: parameter %s of type %s" % (self.name, nm, t))
+            if nm in self.flat:
+                self.ptr[nm] = "mem"
+                self.scalar(nm, entry=True)       # its address
+                self.region("mem")
+            elif int_width(el) is not None or el == "void":
+                self.ptr[nm] = lname(nm)
+                if nm in mutated:
+                    # the parameter itself is moved (buf++): an index field `<nm>` (entry value 0) into the region `<nm>_`
+                    fail("%s: pointer parameter %s is modified; not supported (copy it to a local in a wrapper or list it in opts['flat'])" % (self.name, nm))
+                self.ptr_is_param_region.add(nm)      # the region is registered at its first use (an unused array is no parameter)
+            elif ptr_elem(el) is not None:
+                fail("%s: parameter %s of type %s" % (self.name, nm, t))
+            else:
+                self.structs.add(nm)
+        self.owner = None
+
+        def locals_(n):
+            if n.get("kind") == "VarDecl":
+                t = base_type(qt(n))
+                m = re.match(r"^(.*)\[(\d+)\]$", t)
+                if m and int_width(m.group(1)) is not None:
+                    nm = n["name"]
+                    self.ptr[nm] = lname(nm)
+                    if n.get("storageClass") == "static":
+                        self.statics.append(nm)
+                        self.ptr_is_param_region.add(nm)
+                    else:
+                        self.local_regions[lname(nm)] = int(m.group(2))
+            for c in n.get("inner", []):
+                locals_(c)
+        locals_(body)
+        self.resolve_ptr_locals(body)
+        for nm in list(self.ptr):
+            reg = self.ptr[nm]
+            if reg is None:
+                fail("%s: pointer %s is never bound to a region" % (self.name, nm))
+            if nm in self.statics and nm in self.ptr_is_param_region:
+                self.region(nm)          # static local array: an entry parameter
+            elif nm not in self.ptr_is_param_region and nm not in self.flat and lname(nm) not in self.local_regions:
+                self.scalar(nm, entry=(nm in self.statics))
         self._rets = []
         self.scan_flags(body)
-        # a single return as the LAST statement of the body needs no `done` flag
         last = body.get("inner", [None])[-1] if body.get("inner") else None
         self.has_ret = any(r is not last for r in self._rets)
         lines = self.stmt(body, "  ")
-        # entry point parameters
-        params, inits = ["(fuel : Nat)"], []
-        for kind, nm in plist:
-            if kind == "scalar":
-                params.append("(%s : Int)" % lname(nm))
-                inits.append("%s := %s" % (lname(nm), lname(nm)))
-            elif kind == "array":
-                if lname(nm) in self.arrays:
-                    params.append("(%s : List Int)" % lname(nm))
-                    inits.append("%s := %s" % (lname(nm), lname(nm)))
-            else:
-                for f, is_arr in self.field_order.get(nm, []):
-                    params.append("(%s : %s)" % (f, "List Int" if is_arr else "Int"))
-                    inits.append("%s := %s" % (f, f))
-        given = set(i.split(" := ")[0] for i in inits)
+        # assemble
+        # entry parameters: in the order of the C parameters (a struct parameter expands to its members in order of first use), then the rest
+        ordered = []
+        for pn in self.plist:
+            ordered += [(n, t) for n, t, o in self.entry if o == pn]
+        ordered += [(n, t) for n, t, o in self.entry if o not in self.plist]
+        params = ["(fuel : Nat)"] + ["(%s : %s)" % (n, t) for n, t in ordered]
+        given = set(n for n, _ in ordered)
+        inits = ["%s := %s" % (n, n) for n, _ in ordered]
+        for r, size in self.local_regions.items():
+            inits.append("%s := List.replicate %d 0" % (r, size))
+            given.add(r)
         st = ["structure %s.St where" % self.name]
         for f in self.scalars:
             st.append("  %s : Int%s" % (f, "" if f in given else " := 0"))
-        for f in self.arrays:
+        for f in self.bools:
+            st.append("  %s : Bool" % f)
+        for f in self.regions + [r for r in self.local_regions if r not in self.regions]:
             st.append("  %s : List Int%s" % (f, "" if f in given else " := []"))
         st += ["  ub : Bool := false", "  oof : Bool := false", "  ret : Int := 0"]
+        if any(ptr_elem(qt(r["inner"][0])) is not None for r in self._rets if r.get("inner")):
+            st.append("  retnull : Bool := false")
         if self.has_ret:
             st.append("  done : Bool := false")
         if self.has_brk:
@@ -550,8 +1055,25 @@ class Fn:
         st.append("/-- records undefined behaviour: `c` is what the C standard requires at this point -/")
         st.append("def %s.chk (s : %s.St) (c : Prop) [Decidable c] : %s.St := { s with ub := s.ub || !decide c }" % (self.name, self.name, self.name))
         st.append("")
+        ftype = {}
+        for f in self.scalars:
+            ftype[f] = "Int"
+        for f in self.regions + list(self.local_regions):
+            ftype[f] = "List Int"
+        for f in ("retnull", "done", "brk", "cnt"):
+            ftype[f] = "Bool"
+        ftype["ret"] = "Int"
+        for f in self.setters:
+            st.append("@[reducible] def %s.St.set_%s (s : %s.St) (v : %s) : %s.St := { s with %s := v }" % (self.name, f, self.name, ftype[f], self.name, f))
+        if self.setters:
+            st.append("")
         out = st + self.loops
-        out.append("/-- `%s` of `%s`, translated statement by statement -/" % (self.name, self.opts.get("cfile", "?")))
+        doc = "`%s` of `%s`, translated statement by statement" % (self.name, self.opts.get("cfile", "?"))
+        if self.ret_region:
+            doc += "; the result `ret` is an index into region `%s`" % self.ret_region
+        for nt in self.notes:
+            doc += "; " + nt
+        out.append("/-- %s -/" % doc)
         out.append("def %s %s : %s.St :=" % (self.name, " ".join(params), self.name))
         out.append("  let s : %s.St := { %s }" % (self.name, ", ".join(inits)))
         out += lines
@@ -567,14 +1089,20 @@ def translate_unit(repo, bdir, unit, cfile, fns, opts=None):
             "-I" + os.path.join(repo, "mfhdf/hrepack")]
     if bdir:
         incs += ["-I" + bdir, "-I" + os.path.join(bdir, "hdf/src"), "-I" + os.path.join(bdir, "mfhdf/src")]
-    out = ["/- GENERATED by /verif/gen/c2lean.py from `%s` of /repo's current tree (Tie A, function level). Do not edit.\n"
-           "   Each definition is the statement-by-statement translation of the C function of the same name\n"
-           "   (see the header of gen/c2lean.py for the translation scheme and its assumptions). -/\n" % cfile,
-           "set_option linter.unusedVariables false\nnamespace H4.Gen.Fn.%s\n" % unit]
+    incs += opts.get("cflags", [])
+    out = []
+    for imp in opts.get("imports", []):
+        out.append("import %s" % imp)
+    out.append("/- GENERATED by /verif/gen/c2lean.py from `%s` of /repo's current tree (Tie A, function level). Do not edit.\n"
+               "   Each definition is the statement-by-statement translation of the C function of the same name\n"
+               "   (see the header of gen/c2lean.py for the translation scheme and its assumptions). -/\n" % cfile)
+    out.append("set_option linter.unusedVariables false\nnamespace H4.Gen.Fn.%s\n" % unit)
     sigs = {}
     for fn in fns:
+        fo = dict(opts)
+        fo.update(opts.get("per_fn", {}).get(fn, {}))
         ast = clang_ast(os.path.join(repo, cfile), fn, incs)
-        f = Fn(ast, unit, opts)
+        f = Fn(ast, unit, fo)
         txt, params = f.translate()
         out.append(txt)
         sigs[fn] = params
@@ -584,8 +1112,13 @@ def translate_unit(repo, bdir, unit, cfile, fns, opts=None):
 
 if __name__ == "__main__":
     repo, bdir, unit, cfile = sys.argv[1:5]
+    o = {}
+    args = sys.argv[5:]
+    if args and args[0].startswith("{"):
+        o = json.loads(args[0])
+        args = args[1:]
     try:
-        txt, _ = translate_unit(repo, bdir, unit, cfile, sys.argv[5:])
+        txt, _ = translate_unit(repo, bdir, unit, cfile, args, o)
     except Unsupported as e:
         print("C2LEAN FAILURE:", e)
         sys.exit(1)
